@@ -313,7 +313,10 @@ class FakeOS(object):
 
     def access(self, path, mode):
         if path.startswith('/sim/') or path.startswith('sim/'):
-            return not path.startswith('/sim/noperm')     # executable bits set, but not for this user
+            if path.startswith('/sim/noperm'):
+                # execute bits are set, but not for this user: readable, not executable
+                return not (mode & _real_os.X_OK)
+            return True
         return _real_os.access(path, mode)
 
 
